@@ -64,7 +64,7 @@ func (c *ProgCase) Judge(rs []Res, env *Env) Outcome {
 			}
 			if valid, decided := c.P.staticValid(); valid && decided && !onlyLayout {
 				o.Status = Violated
-				o.Viols = []Violation{{Sig: fmt.Sprintf("C05|refused-valid|%s", c.Ctx),
+				o.Viols = []Violation{{Sig: fmt.Sprintf("C05|refused-valid|%s|%s", c.Ctx, diagClass(why)),
 					Detail: fmt.Sprintf("a program of data directives that is valid by the model is refused (%s); program:\n%s", why, c.P.Source())}}
 				return o
 			}
@@ -452,6 +452,44 @@ func c03Random(r *Rand, mode int, org int64, withJumps bool) *ProgCase {
 		}
 	}
 	if r.Chance(1, 3) {
+		// an EQU that is another name for a label: defined at a random place (before or after the label, before or after
+		// branches have mentioned the label), used as an immediate anywhere after it and as data after the label
+		l := fmt.Sprintf("L%d", r.Intn(nl))
+		alias := "AL_" + l
+		k := r.Intn(len(out))
+		for out[k].K == "resbto" || (k+1 < len(out) && out[k+1].K == "resbto") {
+			k = r.Intn(len(out))
+		}
+		rest := append([]PStmt{}, out[k:]...)
+		out = append(append(out[:k:k], PStmt{K: "equ", Label: alias, Text: l, Tag: "EQU"}), rest...)
+		defAt := len(out)
+		for i, s := range out {
+			if s.K == "label" && s.Label == l {
+				defAt = i
+			}
+		}
+		for n := 0; n < 3; n++ {
+			j := k + 1 + r.Intn(len(out)-k-1)
+			if out[j].K == "resbto" || (j+1 < len(out) && out[j+1].K == "resbto") || j >= len(out)-1 {
+				continue
+			}
+			var use PStmt
+			if j > defAt && r.Chance(1, 2) {
+				use = PStmt{K: "data", W: Pick(r, []int{2, 4}), Items: []DItem{{Kind: "label", Label: l, Text: alias}}}
+			} else {
+				use = PStmt{K: "movl", Reg: probeReg(mode, r.Intn(8)), Label: l, Text: alias}
+			}
+			rest := append([]PStmt{}, out[j+1:]...)
+			out = append(append(out[:j+1:j+1], use), rest...)
+			if j < defAt {
+				defAt++
+			}
+		}
+		if out[len(out)-1].K != "label" {
+			panic("final label lost")
+		}
+	}
+	if r.Chance(1, 3) {
 		// a label on the very first line (address = origin, 0 without ORG), referenced from data and code
 		top := fmt.Sprintf("L%d", nl)
 		nl++
@@ -562,4 +600,31 @@ func xcheckProg(env *Env, rep *Report, outs []Outcome) {
 		}
 		rep.Extra["oracle_disagreement_samples"] = ss
 	}
+}
+
+// diagClass: the wording of a refusal with its variable parts removed (digits, quoted text), for signatures.
+func diagClass(why string) string {
+	var b strings.Builder
+	inQuote := false
+	for _, c := range why {
+		switch {
+		case c == '"' || c == '\'':
+			inQuote = !inQuote
+		case inQuote:
+		case c >= '0' && c <= '9':
+			b.WriteByte('N')
+		case c == '|':
+			b.WriteByte('/')
+		default:
+			b.WriteRune(c)
+		}
+	}
+	t := strings.Join(strings.Fields(b.String()), " ")
+	for strings.Contains(t, "NN") {
+		t = strings.ReplaceAll(t, "NN", "N")
+	}
+	if len(t) > 90 {
+		t = t[:90]
+	}
+	return t
 }
